@@ -52,6 +52,41 @@ CHECKS.update({
             "traces validated: nothing misread, no unhandled exception, heal phase succeeds.", "6 C17", WIRE_NOTE + " " + SOCK_NOTE),
 })
 
+API_NOTE = ("Assumes the TLA+ client contract (ClientContract) and oracle (ApiModel, from the property texts, vendor documents and public "
+            "docstrings) as the reading of the property, the TLA+ wire layer for what frames mean, CPython 3.12 asyncio on the virtual loop, "
+            "TLC, and the harness executor (no oracle). Verdicts hold for the generated scenarios listed in the evidence.")
+
+CHECKS.update({
+    "C04": ("Public control calls over enum arguments, the 0.05 degC grid, dampers, AC/zone numbers and ability configurations are made on an initialised "
+            "real client; TLC validates each recorded trace: exactly one frame, correct CRC/addresses (SocketContract), and its reference reading "
+            "(AT4Msg/AT5Msg, lenient = as a console reads it) is one of the readings ApiModel!Expect allows (requested attribute set, all others keep).",
+            "6 C04", API_NOTE),
+    "C08": ("Heartbeat answer patterns (prompt, late by 10 s / 29.875 s / 30.25 s / 60 s, never) over 3..5 beats, silence from the first beat, after a "
+            "response and after a reset, on both generations in virtual time; ClientContract judges beats at start + k*300 s while connected and resets "
+            "exactly at the watchdog deadline chain (last response / start / previous expiry + 330 s), never otherwise.", "6 C08", API_NOTE),
+    "C09": ("Initialisation scenarios over installations (1..4 ACs, 0..16 zones, partitions, AT4 old/new ability format, AT5 zero-zone echo), extras "
+            "interleaved at every step, arbitrary segmentation, silence at step i, connect delays around 5 s; ClientContract judges request order, one "
+            "at a time, init() outcome at the right time, and the snapshot against ApiModel (zones attached to the right AC).", "6 C09", API_NOTE),
+    "C10": ("Status/timer/error/version histories with a snapshot of every public attribute after every frame, including the full cross product of "
+            "documented AC power x mode x fan x flag codes; TLC compares each snapshot with ApiModel!AcSnap/ZoneSnap of the latest reference readings.",
+            "6 C10", API_NOTE),
+    "C11": ("Calls over all 2^5 mode bitmaps x fan bitmaps, all enum members, temperatures on the 0.05 grid incl. ties and out-of-range, dampers -5..105, "
+            "sensor present/absent, turbo support, reported timer pairs; ClientContract judges ValueError + nothing sent for inadmissible calls and exactly "
+            "one frame with the rounded/clamped value (ApiModel!Expect) for admissible ones.", "6 C11", API_NOTE),
+    "C12": ("Histories with subscribe/unsubscribe/double-subscribe placements, raising subscribers and unchanged repeats; per fed frame ClientContract "
+            "derives who must be called (exposed attribute changed under every acceptable reading), who must not (identical report) and checks ids; "
+            "a raising subscriber must not reduce the others' calls nor stop reception (strict mode).", "6 C12", API_NOTE),
+    "C14": ("Connection loss at random points after initialisation, console state changed meanwhile, outages 0..400 s, then reconnection: first frames "
+            "= AC status and zone status requests, snapshot = console state, unchanged refresh = no callback; AT4 group-status gaps 100..1000 s: a poll "
+            "exactly at each 300 s deadline, none earlier.", "6 C14", API_NOTE),
+    "C18": ("discover() on simulated UDP with 0..3 datagrams per search (valid, duplicate, echo, malformed, invalid UTF-8, other generation) around the "
+            "request instants, broadcast and unicast; DiscoveryContract judges request text/port/schedule, the stop rule, termination and the result set "
+            "(= parsed valid datagrams, model, port).", "6 C18", API_NOTE),
+    "C19": ("The same abstract installation and history is rendered for both generations, both real clients are run, each trace is validated by "
+            "Trace_Client and Check_Pair compares step by step: Common-projected snapshots equal, same accept/reject, AbstractCmd of the two frames equal.",
+            "6 C19", API_NOTE),
+})
+
 TECH = "TLA+ spec (SocketImpl + SocketContract) model-checked by TLC; TLC-generated schedules replayed into the code; recorded traces validated by TLC (trace validation)"
 
 
@@ -67,8 +102,10 @@ def main():
             "engine": "tlc+harness",
             "level_claimed": {"category": "model_checking", "text": text, "design_ref": "DESIGN.md section " + ref},
             "level_note": note,
-            "technique": TECH if pid not in ("C03", "C05", "C06", "C17") else
-            "TLA+ reference wire specification evaluated by TLC on recorded results of the real codecs / validated traces of the real socket",
+            "technique": (TECH if pid in ("C01", "C02", "C07", "C13", "C15", "C16") else
+                          "TLA+ reference wire specification evaluated by TLC on recorded results of the real codecs / validated traces of the real socket"
+                          if pid in ("C03", "C05", "C06", "C17") else
+                          "TLA+ contract specification (monitor) + TLA+ oracle; traces recorded from the real client validated by TLC (trace validation)"),
         })
     claimed = set(CHECKS)
     allp = [json.loads(l)["id"] for l in open(os.path.join(ROOT, "properties.jsonl"))]
